@@ -1083,6 +1083,20 @@ class Machine:
                 w = wrap(ty, r)
                 return Tuple([Int(ty, w), w != r])
             x, y = a.z(), b.z()
+            # interval reasoning: discharge the overflow flag without the solver when ranges are small
+            ra, rb = srange(a), srange(b)
+            if ra is not None and rb is not None:
+                if o == 'Add':
+                    lo, hi = ra[0] + rb[0], ra[1] + rb[1]
+                elif o == 'Sub':
+                    lo, hi = ra[0] - rb[1], ra[1] - rb[0]
+                else:
+                    ps = [ra[0] * rb[0], ra[0] * rb[1], ra[1] * rb[0], ra[1] * rb[1]]
+                    lo, hi = min(ps), max(ps)
+                tlo, thi = (-(1 << (bits - 1)), (1 << (bits - 1)) - 1) if signed else (0, (1 << bits) - 1)
+                if tlo <= lo and hi <= thi:
+                    res = x + y if o == 'Add' else x - y if o == 'Sub' else x * y
+                    return Tuple([Int(ty, z3.simplify(res)), False])
             if o == 'Mul':
                 ext = bits
             else:
@@ -1479,6 +1493,103 @@ def _subst_val(v, subs):
     if isinstance(v, Tuple):
         return Tuple([_subst_val(e, subs) for e in v.fields])
     raise Unsupported('template result %r' % (v,))
+
+
+_URANGE_CACHE = {}
+
+
+def urange(e, depth=0):
+    """Conservative unsigned interval (lo, hi) of a bit-vector term."""
+    k = e.get_id()
+    hit = _URANGE_CACHE.get(k)
+    if hit is not None and hit[0].eq(e):
+        return hit[1]
+    full = (1 << e.size()) - 1
+    r = _urange(e, depth) if depth <= 40 else None
+    if r is None or r[1] > full:
+        r = (0, full)
+    if len(_URANGE_CACHE) > 50000:
+        _URANGE_CACHE.clear()
+    _URANGE_CACHE[k] = (e, r)        # the term is kept alive so that its id cannot be reused
+    return r
+
+
+def _urange(e, depth):
+    bits = e.size()
+    full = (1 << bits) - 1
+    if z3.is_bv_value(e):
+        v = e.as_long()
+        return (v, v)
+    if not z3.is_app(e):
+        return None
+    kind = e.decl().kind()
+    ch = e.children()
+    if kind == z3.Z3_OP_ZERO_EXT:
+        return urange(ch[0], depth + 1)
+    if kind == z3.Z3_OP_CONCAT:
+        if len(ch) == 2 and z3.is_bv_value(ch[0]) and ch[0].as_long() == 0:
+            return urange(ch[1], depth + 1)
+        return None
+    if kind == z3.Z3_OP_EXTRACT:
+        hi_bit, lo_bit = e.params()
+        if lo_bit == 0:
+            r = urange(ch[0], depth + 1)
+            if r[1] < (1 << (hi_bit + 1)):
+                return r
+        return None
+    if kind == z3.Z3_OP_BADD:
+        rs = [urange(c, depth + 1) for c in ch]
+        lo, hi = sum(r[0] for r in rs), sum(r[1] for r in rs)
+        if hi <= full:
+            return (lo, hi)
+        # x + (2^n - k) == x - k when x >= k
+        consts = [c for c in ch if z3.is_bv_value(c)]
+        others = [c for c in ch if not z3.is_bv_value(c)]
+        if len(consts) == 1 and others:
+            kk = (1 << bits) - consts[0].as_long()
+            ro = [urange(c, depth + 1) for c in others]
+            lo, hi = sum(r[0] for r in ro), sum(r[1] for r in ro)
+            if lo >= kk and hi <= full:
+                return (lo - kk, hi - kk)
+        return None
+    if kind == z3.Z3_OP_BMUL:
+        lo = hi = 1
+        for c in ch:
+            r = urange(c, depth + 1)
+            lo *= r[0]
+            hi *= r[1]
+        return (lo, hi) if hi <= full else None
+    if kind == z3.Z3_OP_ITE:
+        a, b = urange(ch[1], depth + 1), urange(ch[2], depth + 1)
+        return (min(a[0], b[0]), max(a[1], b[1]))
+    if kind == z3.Z3_OP_BAND:
+        return (0, min(urange(c, depth + 1)[1] for c in ch))
+    if kind in (z3.Z3_OP_BUDIV, z3.Z3_OP_BUDIV_I):
+        a, b = urange(ch[0], depth + 1), urange(ch[1], depth + 1)
+        if b[0] > 0:
+            return (a[0] // b[1], a[1] // b[0])
+        return None
+    if kind in (z3.Z3_OP_BUREM, z3.Z3_OP_BUREM_I):
+        b = urange(ch[1], depth + 1)
+        if b[0] > 0:
+            return (0, b[1] - 1)
+        return None
+    if kind == z3.Z3_OP_BLSHR and z3.is_bv_value(ch[1]):
+        a = urange(ch[0], depth + 1)
+        sh = ch[1].as_long()
+        return (a[0] >> sh, a[1] >> sh)
+    return None
+
+
+def srange(iv):
+    """Signed mathematical interval of an Int value, or None."""
+    if not iv.sym:
+        return (iv.v, iv.v)
+    r = urange(iv.v)
+    bits = BITS[iv.ty]
+    if iv.ty in SIGNED and r[1] >= (1 << (bits - 1)):
+        return None
+    return r
 
 
 def _is_scalar_ty(t):
